@@ -76,7 +76,7 @@ package kernel
 // ───────────── abandonCosiSnapshot / retryCosiSnapshot ─────────────
 // The two CoSi maps exist (NewChain / resetCosiStateForNewRound make them; they are never set to nil).
 //@ spec ChainMapsOK(chain *Chain) bool = chain != nil && chain.CosiAggregators != nil && chain.CosiVerifiers != nil
-//@ spec ChainOK(chain *Chain) bool = ChainMapsOK(chain) && NodeStoreOK(chain.node)
+//@ spec CosiChainOK(chain *Chain) bool = ChainMapsOK(chain) && NodeStoreOK(chain.node)
 // Lookup in the verifier map as the code reads it (a missing key reads as nil)
 //@ spec VerifierAt(m map[crypto.Hash]*CosiVerifier, h crypto.Hash) *CosiVerifier = has(m, h) ? m[h] : nil
 
@@ -107,7 +107,7 @@ package kernel
 // retryCosiSnapshot(s): abandon + every transaction of the abandoned snapshot that is still unfinalized and has a body is queued again.
 //@ func (chain *Chain) retryCosiSnapshot
 //@   property C24
-//@   requires ChainOK(chain) && s != nil
+//@   requires CosiChainOK(chain) && s != nil
 //@   modifies chain.CosiAggregators[-], chain.CosiVerifiers[-], ghost bytes_cachequeue, ghost store_errors
 //@   ensures [requeued] StoreErrors(chain.node.persistStore) == old(StoreErrors(chain.node.persistStore)) ==>
 //@       (forall i int :: {s.Transactions[i]} 0 <= i && i < len(s.Transactions) && Eligible(chain.node.persistStore, s.Transactions[i]) ==> Queued(chain.node.persistStore, s.Transactions[i]))
